@@ -70,6 +70,11 @@ func (f *fileEvent) OnEvent(progress *PackageProgress) {
 	case ProgressStageFailQuit:
 		str += fmt.Sprintf(" 文件传输异常 [%v]", extension.Err)
 	case ProgressStageSuccessQuit:
+		if progress.ExtensionFields.RecentTerminalMessage == nil {
+			// 连接建立后没有收到任何报文就断开了 没有需要保存的
+			str += " 没有收到任何数据"
+			return
+		}
 		phone := progress.ExtensionFields.RecentTerminalMessage.Header.TerminalPhoneNo
 		str += fmt.Sprintf(" 文件传输成功 开始保存 保存数量[%d] 地方标准[%s]\n",
 			len(progress.Record), progress.ExtensionFields.ActiveSafetyType.String())
